@@ -38,6 +38,8 @@ STREAMS = {
     "ver": {"relevant": True, "desc": "BeaconVersion(text): tuple, date, version_only, version_string"},
     "tbl": {"relevant": True, "desc": "BeaconVersion.from_pe_export_stamp / from_max_setting_enum"},
     "cfg": {"relevant": True, "desc": "BeaconConfig.version precedence (export stamp, then max setting enum)"},
+    "stage": {"relevant": True, "desc": "BeaconConfig.from_bytes on a whole stage (prepend + PE image + configuration block): .architecture, "
+              ".pe_compile_stamp, .pe_export_stamp, .version against the image builder's field values (stamps 0, missing export directory, both architectures)"},
     "fmt": {"relevant": True, "desc": "documented shape: format → BeaconVersion → same fields"},
     "hist": {"relevant": True, "desc": "history on ONE BeaconConfig: reads of .version / max_setting_enum interleaved with assignments of "
              "pe_export_stamp / pe_compile_stamp / architecture; every read must reflect the CURRENT attributes"},
@@ -351,6 +353,32 @@ def gen(tier, rng, shard, nshards):
                             cut = max(0, min(cut, len(data)))
                             ops = PE_OPS if rng.random() < 0.5 else rng.sample(PE_OPS, 2)
                             yield from pe_lines(kind, data[:cut], 0, 0, 1024, None, ops)
+
+    # ---- 1b. whole stages through BeaconConfig.from_bytes: prepend + image + configuration block ----------
+    for rep in range(240 if thorough else 48):
+        if not mine():
+            continue
+        arch = rng.choice(["x86", "x64"])
+        img = Img(rng, arch=arch, lfanew=rng.choice([64, 128, 200, 400]), nsec=rng.choice([1, 2, 3]), export=rng.choice(["in", "in", "none", "out"]),
+                  big_stamp=True)
+        if rep % 4 == 0:
+            img.compile_stamp = 0                         # a zero TimeDateStamp is a value, not "no image"
+        if rep % 8 == 2:
+            img.export_stamp = 0
+        pre = safe_prepend(rng, rng.choice([0, 0, 5, 300]))
+        enums = sorted(rng.sample([2, 3, 4, 5, 7, 8, 9, 26, 27, 37, 38, 40, 43, 50, 54, 58, 59, 70, 72, 76, 77, 78], rng.choice([1, 3, 6])))
+        blk = struct.pack(">HHHH", 1, 1, 2, rng.choice([0, 1, 8])) + _settings_block(enums)
+        key = rng.choice([0x2E, 0x69])
+        cfgb = bytes(b ^ key for b in blk.ljust(rng.choice([200, 4096]), b"\x00"))
+        gap = bytes(rng.choice(b"\x90\xcc\x41") for _ in range(rng.choice([0, 3, 64])))
+        img.append = gap + cfgb                      # the builder's own "append" slot: what follows the image
+        body = img.build(rng)[:-len(img.append)]
+        data = pre + body + gap + cfgb
+        exp = expectations(img, pre, data, 0, 0, 1024)
+        e = "-" if "-" in (exp["arch"], exp["stamps"]) else f"{exp['arch']}_{exp['stamps'][3:]}"
+        if (bytes(b ^ 0x2E for b in STAGE_HDR) in pre + body + gap) or (bytes(b ^ 0x69 for b in STAGE_HDR) in pre + body + gap) or STAGE_HDR in pre + body + gap:
+            continue
+        yield "stage", f"stage {C.hx(data)} {C.ints([1] + enums)} {e}"
 
     # ---- 2. start_offset / maxrange / tell() variations, other machines, boundary e_lfanew vs maxrange -----
     n2 = (1500 if thorough else 260) // nshards
@@ -769,6 +797,9 @@ def _excname(e):
     return type(e).__name__
 
 
+STAGE_HDR = bytes.fromhex("00010001000200")
+
+
 def _settings_block(enums):
     return b"".join(struct.pack(">HHHI", e, 2, 4, 0x01020304) for e in enums) + b"\x00\x00"
 
@@ -884,6 +915,9 @@ def impl(stream, line):
         if a.tuple is None or b.tuple is None or a.date is None or b.date is None:
             return "F"
         return C.tf(a.tuple <= b.tuple and a.date <= b.date)
+    if stream == "stage":
+        cfg = BeaconConfig.from_bytes(C.unhx(w[1]))
+        return f"ok {cfg.architecture or 'none'} {_oi(cfg.pe_compile_stamp)} {_oi(cfg.pe_export_stamp)} ok {txt(str(cfg.version))}"
     if stream == "cfg":
         enums = C.unints(w[2])
         cfg = BeaconConfig(_settings_block(enums))
@@ -982,6 +1016,14 @@ def oracle(stream, line, out):
             if o.startswith("exc ") or "_".join(o.split(" ")[:-1]) != exp:
                 return False
         return True if claimed else None
+    if stream == "stage":
+        if w[3] == "-":
+            return None
+        arch, comp, exs = w[3].split("_")
+        enums = C.unints(w[2])
+        st = None if exs == "none" else int(exs)
+        want = version.PE_EXPORT_STAMP_TO_VERSION.get(st, "Unknown") if st else version.MAX_ENUM_TO_VERSION.get(max(enums), "Unknown")
+        return out == f"ok {arch} {comp} {exs} ok {txt(want)}"
     if stream == "cfg":
         st = None if w[1] == "none" else int(w[1])
         enums = C.unints(w[2])
